@@ -16,10 +16,14 @@
   Strings are `List Char`.  A `&mut` environment becomes a returned `Env`; an error keeps the
   environment reached so far (assignments made by `${x=w}` before the error persist, as in Rust).
   Not modelled: command substitution, arithmetic expansion, tilde expansion, pathname expansion
-  (the harness runs with `set -f`), `$-`, `$$`, `$!`, `LINENO`-style quirks.  Trim patterns are
-  matched by a small matcher for literal characters, `?` and `*` (no bracket expressions): the
-  yash-fnmatch model belongs to C04.
+  (the harness runs with `set -f`), `LINENO`-style quirks.  Trim patterns are matched by the C04
+  model of yash-fnmatch (`YashModel.Fnmatch.Model`: parser with bracket expressions, translation
+  to a regular expression, leftmost-first search, literal fast path) — composed, not re-modelled.
+  Constants of the code (default IFS, short option names, special-parameter characters, modifier
+  characters) come from `YashModel.Generated.ExpansionTables`, re-extracted from /repo on every run.
 -/
+import YashModel.Fnmatch.Model
+import YashModel.Generated.ExpansionTables
 namespace YashModel.Expansion
 
 /-! ## Characters -/
@@ -62,8 +66,8 @@ structure Ifs where
 def Ifs.new (chars : List Char) : Ifs :=
   { chars := chars, nonWhitespaces := chars.filter (fun c => !isWhitespace c) }
 
-/-- `Ifs::DEFAULT` = `" \t\n"` -/
-def Ifs.defaultChars : List Char := [' ', '\t', '\n']
+/-- `Ifs::DEFAULT` (`" \t\n"`; generated from `IFS_INITIAL_VALUE`) -/
+def Ifs.defaultChars : List Char := Generated.ExpansionTables.ifsDefault
 def Ifs.default : Ifs := Ifs.new Ifs.defaultChars
 
 /-- `Ifs::classify` -/
@@ -299,8 +303,9 @@ inductive Param
 
 inductive SwCond | unset | unsetOrEmpty deriving DecidableEq, Repr
 inductive SwAction | alter | default | assign | error deriving DecidableEq, Repr
-inductive TrimSide | prefix | suffix deriving DecidableEq, Repr
-inductive TrimLen | shortest | longest deriving DecidableEq, Repr
+/-- `yash_syntax::syntax::TrimSide` / `TrimLength` (the C04 model's types: `.prefix`/`.suffix`, `.shortest`/`.longest`) -/
+abbrev TrimSide := Fnmatch.TrimSide
+abbrev TrimLen := Fnmatch.TrimLength
 
 mutual
   inductive TextUnit
@@ -331,9 +336,9 @@ end
 
 def natToChars (n : Nat) : List Char := (toString n).toList
 
-/-- `Option::iter()` order of the options that have a short name (`Option::short_name`) -/
-def optionShortNames : List Char :=
-  ['a', 'C', 'c', 'e', 'n', 'f', 'h', 'i', 'l', 'm', 'b', 's', 'u', 'v', 'x']
+/-- `Option::iter()` order of the options that have a short name (`Option::short_name`; generated:
+    `a C c e n f h i l m b s u v x`, each with the state it stands for) -/
+def optionShortNames : List Char := Generated.ExpansionTables.optionShortNames.map (·.1)
 
 /-- `resolve::options`: short names of the options whose state matches, in `Option::iter()` order.
     The harness runs with pathname expansion off (`f`); its virtual shell does not turn `CmdLine` on. -/
@@ -422,7 +427,7 @@ def lengthOf : Option Value → Option Value
   | some (.scalar s) => some (.scalar (natToChars s.length))
   | some (.array vs) => some (.array (vs.map (fun s => natToChars s.length)))
 
-/-! ## Trim (`param/trim.rs`, `attr_fnmatch.rs`) with a literal/`?`/`*` matcher -/
+/-! ## Trim (`param/trim.rs`, `attr_fnmatch.rs`) on top of the yash-fnmatch model of C04 -/
 
 /-- `attr_fnmatch::apply_escapes`: an unquoted, non-quoting backslash quotes the next character
     (the loop looks at the already updated flags of `chars[i]`) -/
@@ -439,9 +444,8 @@ def applyEscapesGo (quotedByPrev : Bool) : List AttrChar → List AttrChar
 
 def applyEscapes (cs : List AttrChar) : List AttrChar := applyEscapesGo false cs
 
-/-- `yash_fnmatch::PatternChar` -/
-inductive PatChar | normal (c : Char) | literal (c : Char)
-  deriving DecidableEq, Repr
+/-- `yash_fnmatch::PatternChar` (the C04 model's type: `.normal c` / `.literal c`) -/
+abbrev PatChar := Fnmatch.PatternChar
 
 /-- `attr_fnmatch::to_pattern_chars` -/
 def toPatternChars : List AttrChar → List PatChar
@@ -451,41 +455,13 @@ def toPatternChars : List AttrChar → List PatChar
     else if c.isQuoted then .literal c.value :: toPatternChars t
     else .normal c.value :: toPatternChars t
 
-/-- candidate lengths `0..=n` -/
-def upTo (n : Nat) : List Nat := List.range (n + 1)
-
-/-- whole-string match of a pattern made of literals, `?` and `*` (stand-in for yash-fnmatch) -/
-def globMatch : List PatChar → List Char → Bool
-  | [], s => s.isEmpty
-  | .normal c :: p, s =>
-    if c == '*' then (upTo s.length).any (fun k => globMatch p (s.drop k))
-    else
-      match s with
-      | [] => false
-      | d :: s' => (c == '?' || c == d) && globMatch p s'
-  | .literal c :: p, s =>
-    match s with
-    | [] => false
-    | d :: s' => c == d && globMatch p s'
-
-/-- `trim_value`: remove the shortest/longest matching prefix/suffix -/
-def trimValue (pat : List PatChar) (side : TrimSide) (len : TrimLen) (v : List Char) : List Char :=
-  let ks := match len with
-    | .shortest => upTo v.length
-    | .longest => (upTo v.length).reverse
-  match side with
-  | .prefix =>
-    match ks.find? (fun k => globMatch pat (v.take k)) with
-    | some k => v.drop k
-    | none => v
-  | .suffix =>
-    match ks.find? (fun k => globMatch pat (v.drop (v.length - k))) with
-    | some k => v.take (v.length - k)
-    | none => v
-
+/-- `trim::apply` after the pattern word has been expanded: `Pattern::parse_with_config` with the
+    configuration of the trim form (a pattern that does not compile leaves the value unchanged), then
+    `trim_value` on the scalar or on every element of the array — `Fnmatch.trimApply` / `trimArray`
+    of the C04 model -/
 def trimApply (pat : List PatChar) (side : TrimSide) (len : TrimLen) : Value → Value
-  | .scalar s => .scalar (trimValue pat side len s)
-  | .array vs => .array (vs.map (trimValue pat side len))
+  | .scalar s => .scalar (Fnmatch.trimApply side len pat s)
+  | .array vs => .array (Fnmatch.trimArray side len pat vs)
 
 /-! ## Initial expansion (`initial/{slice,word,text,param}.rs`) -/
 
@@ -677,17 +653,21 @@ inductive SynErr
 def isNameChar (c : Char) : Bool :=
   ('0' ≤ c && c ≤ '9') || ('A' ≤ c && c ≤ 'Z') || c == '_' || ('a' ≤ c && c ≤ 'z')
 
-/-- `SpecialParam::from_char` -/
-def specialOfChar : Char → Option Param
-  | '@' => some .at
-  | '*' => some .star
-  | '#' => some .num
-  | '?' => some .question
-  | '-' => some .hyphen
-  | '$' => some .dollar
-  | '!' => some .bang
-  | '0' => some .zero
+/-- the variants of `SpecialParam` -/
+def paramOfVariant : String → Option Param
+  | "At" => some .at
+  | "Asterisk" => some .star
+  | "Number" => some .num
+  | "Question" => some .question
+  | "Hyphen" => some .hyphen
+  | "Dollar" => some .dollar
+  | "Exclamation" => some .bang
+  | "Zero" => some .zero
   | _ => none
+
+/-- `SpecialParam::from_char` (the generated table `@ * # ? - $ ! 0`) -/
+def specialOfChar (c : Char) : Option Param :=
+  (Generated.ExpansionTables.specialParams.lookup c).bind paramOfVariant
 
 def digitsToNat (cs : List Char) : Nat := cs.foldl (fun n c => n * 10 + (c.toNat - 48)) 0
 
@@ -707,8 +687,8 @@ def hasLengthPrefix : List Char → Bool
     match rest with
     | [] => true
     | c :: rest' =>
-      if c == '}' || c == '+' || c == '=' || c == ':' || c == '%' then false
-      else if c == '-' || c == '?' || c == '#' then
+      if Generated.ExpansionTables.lengthPrefixPlain.contains c then false
+      else if Generated.ExpansionTables.lengthPrefixAmbiguous.contains c then
         match rest' with
         | c' :: _ => c' == '}'
         | [] => true
@@ -736,9 +716,9 @@ def lexSuffix (s : List Char) : Except SynErr (LexMod × List Char) :=
   let r := if colon then s.tail else s
   match r with
   | c :: r' =>
-    if c == '+' || c == '-' || c == '=' || c == '?' then
+    if Generated.ExpansionTables.suffixSwitchSymbols.contains c then
       .ok (.switch colon c (r'.takeWhile (· != '}')), r'.dropWhile (· != '}'))
-    else if c == '#' || c == '%' then
+    else if Generated.ExpansionTables.suffixTrimSymbols.contains c then
       if colon then .error .invalidModifier
       else
         let long := r'.head? == some c
@@ -799,22 +779,23 @@ def readQuoted (c : Char) : AttrChar :=
 def readQuoting (c : Char) : AttrChar :=
   { value := c, origin := .softExpansion, isQuoted := false, isQuoting := true }
 
-/-- `input::read` with delimiter newline: the characters of the logical line and whether the
-    delimiter was found -/
-def readInput (raw : Bool) : List Char → List AttrChar × Bool
+/-- `input::read(env, delimiter, is_raw)`: the characters of the logical line and whether the delimiter
+    (`-d`, newline by default) was found.  The delimiter test comes first (also for a backslash); a
+    backslash–newline pair is a line continuation whatever the delimiter is. -/
+def readInput (raw : Bool) (delim : Char) : List Char → List AttrChar × Bool
   | [] => ([], false)
   | c :: rest =>
-    if c == '\n' then ([], true)
+    if c == delim then ([], true)
     else if c == '\\' && !raw then
       match rest with
       | [] => ([readQuoting '\\'], false)
       | d :: rest' =>
-        if d == '\n' then readInput raw rest'
+        if d == '\n' then readInput raw delim rest'
         else
-          let r := readInput raw rest'
+          let r := readInput raw delim rest'
           (readQuoting '\\' :: readQuoted d :: r.1, r.2)
     else
-      let r := readInput raw rest
+      let r := readInput raw delim rest
       (plainChar c :: r.1, r.2)
 
 /-- `rposition(|c| classify_attr(c) != IfsWhitespace) + 1` (0 when there is none) -/
